@@ -1093,3 +1093,63 @@ def requires_read_with_defaults(ctx, rule):
     if n < 3:
         raise AnalysisError('requires: only %d merged reads found' % n)
     rule.ok('requires read through get_task_requires :: %d sites' % n)
+
+
+def cancelled_item_ends_with_items(ctx, rule):
+    """Cancel of a workflow whose with-items task has a concurrency limit:
+    the in-flight item comes back CANCELLED while items remain unstarted.
+    Nothing new may be started below a cancelled workflow, so (a) an
+    accepted CANCELLED item makes the task complete whatever the counters
+    say, (b) on_action_complete looks at completion before it thinks about
+    the next item, and (c) the final state gives CANCELLED precedence."""
+    prog = ctx.prog
+    WIT = 'mistral.engine.tasks.WithItemsTask'
+    wc = prog.func(WIT + '.is_with_items_completed')
+    cfg = ctx.cfg(wc)
+    lc = U.lambda_names(wc.node,
+                        '__x.accepted and __x.state == states.CANCELLED')
+    early = [n for n in cfg.nodes if n.kind == 'stmt' and
+             isinstance(n.ast, ast.Return) and
+             isinstance(n.ast.value, ast.Constant) and
+             n.ast.value.value is True]
+    ok = bool(lc) and bool(early)
+    for n in early:
+        ga = U.guard_atoms(cfg, n)
+        ok = ok and len(ga) == 1 and ga[0][1] is True and any(
+            isinstance(b['__f'], ast.Name) and b['__f'].id in lc
+            for b in U.guard_match(
+                cfg, n, 'list(filter(__f, self.task_ex.executions))', True))
+    rule.check(ok, ctx.construct(wc, extra='a cancelled item completes it'),
+               'an accepted CANCELLED item does not make the with-items task '
+               'complete unconditionally: items that were never started '
+               'keep it open after a cancel', ctx.loc(wc))
+    oc = prog.func(WIT + '.on_action_complete')
+    ocfg = ctx.cfg(oc)
+    sch = U.calls_in(ocfg, '_schedule_actions')
+    if not sch:
+        raise AnalysisError('with-items on_action_complete no longer '
+                            'schedules further items')
+    for n, c in sch:
+        rule.check(U.guarded(ocfg, n, 'self.is_with_items_completed()',
+                             False),
+                   ctx.construct(oc, c, extra='not once the task is complete'),
+                   'the next item is started without first establishing that '
+                   'the task is not complete: after a cancel a new '
+                   'sub-workflow / action is started below a CANCELLED '
+                   'workflow', ctx.loc(oc, c))
+    fs = prog.func(WIT + '._get_final_state')
+    fcfg = ctx.cfg(fs)
+    fl = U.lambda_names(fs.node,
+                        '__x.accepted and __x.state == states.CANCELLED')
+    rets = [n for n in fcfg.nodes if n.kind == 'stmt' and
+            isinstance(n.ast, ast.Return)]
+    okf = bool(fl) and bool(rets)
+    for n in rets:
+        m = U.guard_match(fcfg, n,
+                          'list(filter(__f, self.task_ex.executions))',
+                          norm(n.ast.value) == 'states.CANCELLED')
+        okf = okf and any(isinstance(b['__f'], ast.Name) and
+                          b['__f'].id in fl for b in m)
+    rule.check(okf, ctx.construct(fs, extra='CANCELLED first'),
+               'the final state of a with-items task does not give an '
+               'accepted CANCELLED item precedence', ctx.loc(fs))
